@@ -112,7 +112,7 @@ def run(ctx, prop="C04", rule=RULE, reqs=None):
     if ok:
         rq = corpus_requests(prop) + (reqs or requests)(ctx)
         impl = ctx.impl(rq)
-        model = ctx.model(rq)
+        model = [core.lossy_strings(m) for m in ctx.model(rq)]
         impl = [("panic" if l.startswith("panic:") else "err" if l.startswith("err:") else l) for l in impl]
         core.compare_streams(res, rq, impl, model, is_nontrivial=nontrivial,
                              label="Store model ~ wavemem::Encoder/Reader", sample_every=max(1, len(rq) // 8))
